@@ -228,6 +228,28 @@ class Program:
                         c.bases.append(r)
         return m
 
+    def loaded_attrs(self):
+        """names of attributes that some code of the package READS (ast.Attribute in Load context, getattr/hasattr strings):
+        an assignment to an attribute that nothing ever reads cannot influence any behaviour"""
+        if getattr(self, "_loaded_attrs", None) is None:
+            acc = set()
+            for name, m in self.modules.items():
+                if not name.startswith(PKG):
+                    continue
+                for n in ast.walk(m.tree):
+                    if isinstance(n, ast.Attribute) and isinstance(n.ctx, ast.Load):
+                        acc.add(n.attr)
+                    elif isinstance(n, ast.Call) and isinstance(n.func, ast.Name) and n.func.id in ("getattr", "hasattr", "vars") :
+                        for a in n.args[1:2]:
+                            if isinstance(a, ast.Constant) and isinstance(a.value, str):
+                                acc.add(a.value)
+                        if n.func.id == "vars":
+                            acc.add("*")
+                    elif isinstance(n, ast.Attribute) and n.attr == "__dict__":
+                        acc.add("*")
+            self._loaded_attrs = acc
+        return self._loaded_attrs
+
     def module_of(self, dotted):
         return self.modules.get(dotted)
 
